@@ -229,3 +229,24 @@ def resolve_local(fnode, expr, at, depth=6):
         where = d.stmt
         depth -= 1
     return cur
+
+
+def derives_must(fnode, expr, pred, at, depth=6):
+    """Must-provenance for a plain local name: *every* definition reaching
+    ``at`` is an assignment whose value derives (may) from ``pred``;
+    parameters and unknown bindings do not count.  For other expressions it
+    is the may-provenance of the expression itself."""
+    if isinstance(expr, ast.Name):
+        ds = reaching(fnode).at(at, expr.id)
+        if not ds:
+            return False
+        for d in ds:
+            if d.kind in ('param', 'except', 'def', 'with') or \
+                    d.value is None:
+                return False
+            if d.kind == 'mutate':
+                continue
+            if not derives(fnode, d.value, pred, depth, at=d.stmt):
+                return False
+        return True
+    return derives(fnode, expr, pred, depth, at=at)
